@@ -92,6 +92,7 @@ class CkptBackend(TrialBackend):
         self.ckpt.pop(trial_id, None)
 
     def _schedule(self, trial_id, config):
+        self.log.append(("schedule", int(trial_id)))
         start = self.ckpt.get(trial_id, 0)
         self.epoch[trial_id] = start
         lim = config.get(MAX_RES) if self.spec.get("use_max_resource_attr", True) else None
@@ -109,13 +110,15 @@ class CkptBackend(TrialBackend):
 
     def resume_trial(self, trial_id, new_config=None):
         alive = trial_id not in self.deleted
+        at = len(self.log)
         try:
             res = super().resume_trial(trial_id, new_config)
         except AssertionError:
             # the base class refuses (unknown id / status not paused): nothing is resumed
             self.log.append(("resume_rejected", int(trial_id)))
             raise
-        self.log.append(("resume", int(trial_id), alive))
+        # accepted: the call is logged at the point where it was made (before the job was scheduled)
+        self.log.insert(at, ("resume", int(trial_id), alive))
         # a trial resumed without checkpoint trains from scratch and writes a new one
         self.deleted.discard(trial_id)
         return res
